@@ -5,6 +5,7 @@ package PKG
 // from the model's finite tables, vfChoose/vfRange from the recorded choices.
 
 import (
+	"context"
 	"encoding/json"
 	"fmt"
 	"math"
@@ -150,10 +151,15 @@ func vfNextChoice() int {
 	return v
 }
 
-func vfChoose(name string, n int) int     { return vfNextChoice() }
-func vfRange(name string, lo, hi int) int { return vfNextChoice() }
-func vfConcrete(x int) int                { return x }
-func vfTier() int                         { return vfState.data.Tier }
+func vfChoose(name string, n int) int                   { return vfNextChoice() }
+func vfRange(name string, lo, hi int) int               { return vfNextChoice() }
+func vfProbe(name string, funcs string, lo, hi int) int { return vfNextChoice() }
+func vfProbeDuration(name string, funcs string, base time.Duration) time.Duration {
+	return time.Duration(vfNextChoice())
+}
+func vfConcrete(x int) int               { return x }
+func vfCtxDone(ctx context.Context) bool { return ctx != nil && ctx.Err() != nil }
+func vfTier() int                        { return vfState.data.Tier }
 
 func vfLookupApp(name string, args []int) uint64 {
 	for _, a := range vfState.data.Apps {
@@ -722,6 +728,7 @@ func vfGoroutineID() int {
 	return -vfGID()
 }
 func vfSetMapOrder(mode int)                                    {}
+func vfSetPoolMode(mode int)                                    {}
 func vfSetDelayBound(d int)                                     {}
 func vfMemPoints(on bool)                                       {}
 func vfNow() int64                                              { return time.Now().UnixNano() }
